@@ -118,7 +118,36 @@ func calleeOf(c *ssa.CallCommon) string {
 // models used for mode-A handler runs
 func privModel(x *Exec, fr *frame, ins ssa.CallInstruction, c *ssa.CallCommon, args []Val, st *State, r string) (Val, string) {
 	x.vc.S.declFun("priv", []string{"Int", "Int", "Int"}, "Bool")
+	// Read off the real Authorize: when its entry block dereferences the receiver before any branch,
+	// a call that returns had a non-nil receiver (a nil one panics there, inside the handler's
+	// recover).  Code after the call may rely on that -- and stops being safe if Authorize starts
+	// tolerating nil.
+	if fn := x.eng.funcs["hotline.(*ClientConn).Authorize"]; fn != nil && derefsReceiverInEntry(fn) {
+		x.vc.S.fact(r, not(eq(args[0][0].T, "0")))
+	}
 	return Val{bc(sx("priv", args[0][0].T, args[0][1].T, args[1][0].T))}, r
+}
+
+// derefsReceiverInEntry: the entry block of the method loads or addresses a field of its receiver
+// (so a nil receiver panics before any decision is taken).
+func derefsReceiverInEntry(fn *ssa.Function) bool {
+	if len(fn.Params) == 0 || len(fn.Blocks) == 0 {
+		return false
+	}
+	recv := fn.Params[0]
+	for _, ins := range fn.Blocks[0].Instrs {
+		switch i := ins.(type) {
+		case *ssa.FieldAddr:
+			if i.X == recv {
+				return true
+			}
+		case *ssa.UnOp:
+			if i.X == recv {
+				return true
+			}
+		}
+	}
+	return false
 }
 
 // getFieldModel: t.GetField(id) returns a pointer into the stable ghost object REQ that holds
